@@ -23,7 +23,8 @@ extern int mpt_parse_format_pre(const MPT_STRUCT(parser_format) *fmt, MPT_STRUCT
 	
 	/* get next visible character, no save */
 	if ((curr = mpt_parse_nextvis(&parse->src, fmt->com, sizeof(fmt->com))) < 0) {
-		if (!path->len) {
+		/* only a regular end of input outside of sections is no error */
+		if (!path->len && curr == -2) {
 			return 0;
 		}
 		return MPT_ERROR(MissingData);
